@@ -93,7 +93,9 @@ def dict_to_stix2(stix_dict, allow_custom=False, interoperability=False, version
             if (
                 key_id.startswith('extension-definition--') and
                 isinstance(ext_def, dict) and
-                'property-extension' not in ext_def.get('extension_type', '')
+                ext_def.get('extension_type') in (
+                    'new-sdo', 'new-sco', 'new-sro',
+                )
             ):
                 # prevents ParseError for unregistered objects when
                 # allow_custom=False and the extension defines a new object
